@@ -814,6 +814,10 @@ func renderPayload(c payCase) string {
 				ids = append(ids, fmt.Sprintf(`{"type":"ak2","id":%q}`, id))
 			}
 			rels = append(rels, fmt.Sprintf(`%q:{"data":[%s]}`, r.Name, strings.Join(ids, ",")))
+		case "badlinks": // members of the wrong JSON kind beside the data
+			rels = append(rels, fmt.Sprintf(`%q:{"links":"/x","data":null}`, r.Name))
+		case "badmeta":
+			rels = append(rels, fmt.Sprintf(`%q:{"meta":3}`, r.Name))
 		case "listbadtail": // a list whose later member is of another type
 			rels = append(rels, fmt.Sprintf(`%q:{"data":[{"type":"ak2","id":"u"},{"type":"ak","id":"v"}]}`, r.Name))
 		case "badshape":
@@ -1295,6 +1299,10 @@ func codecOtherModes(mode string, rng *rand.Rand, stt *stats, w *evWriter, n int
 			}
 			if i%17 == 3 {
 				sm2 = "listbadtail"
+			}
+			if i%19 == 5 {
+				so2 = []string{"badlinks", "badmeta"}[(i/19)%2]
+				stt.class("shape:badlinks-or-meta")
 			}
 			if sm2 == "listbadtail" {
 				stt.class("shape:listbadtail")
